@@ -248,6 +248,7 @@ def run (st : St) (args : List String) : St × String :=
     | some c => (st, toString ((c.c.log.filter (fun f => match f with | .event _ _ => true | _ => false)).length + c.rawWire))
     | none => (st, "bad-op")
   | ["sg.got", g] => (st, gotStr st g.toNat!)
+  | ["sg.stats"] => (st, "ok")   -- a registration keeps the connection it was made on (Signals.addUser), whatever wraps the channel
   | ["sg.neighbour"] => (st, "ok")   -- what a subscriber received is a segment of the connection's log (received_once_in_order), whatever its neighbours do
   | "sg.emitrace" :: _ =>
     -- the model's run of that schedule (Props/C13Emit.lean, `raceActs`): events for the removed registration behind
